@@ -676,10 +676,11 @@ class DistinctList(object):
 class SymSet(DistinctList):
     """mutable set of atoms (membership by decided equality)"""
 
-    def update(self, other):
-        for x in other:
-            if x not in self:
-                self.items.append(x)
+    def update(self, *others):
+        for other in others:
+            for x in other:
+                if x not in self:
+                    self.items.append(x)
 
     def add(self, x):
         if x not in self:
